@@ -159,6 +159,7 @@ class SetInterp(object):
         self.elems = dict(elems or {})    # normalised element text -> mask (singletons)
         self.model = model                # callable(interp, expr) -> plain value or None
         self.if_model = None              # callable(interp, If statement) -> True when it executed the statement itself
+        self.for_model = None             # callable(interp, For statement) -> True when it executed the statement itself
         self.fold = None                  # callable(expr) -> constant value of a name / expression, or None
 
     # -- public (plain values) ----------------------------------------------
@@ -289,6 +290,10 @@ class SetInterp(object):
                 out[k.value] = self._ev(v)
             return out
         if isinstance(e, (ast.ListComp, ast.SetComp, ast.GeneratorExp)):
+            if self.model is not None:
+                r = self.model(self, e)
+                if r is not None:
+                    return wrap(r)
             return SV(self._comp(e))
         if isinstance(e, ast.Starred):
             return self._ev(e.value)
@@ -424,6 +429,8 @@ class SetInterp(object):
                 self._store[s] = Opaque(st)
             return
         if isinstance(st, ast.For):
+            if self.for_model is not None and self.for_model(self, st):
+                return
             # ``for v in A: if <membership tests on v>: X.append(v)``: X gains the elements of A that pass the tests
             if isinstance(st.target, ast.Name) and not st.orelse:
                 self._filter_loop(st.body, st.target.id, self._mask(st.iter))
